@@ -755,9 +755,9 @@ func (m *connectUnaryMarshaler) Marshal(message any) *Error {
 	if err != nil {
 		return errorf(CodeInternal, "marshal message: %w", err)
 	}
-	// Can't avoid allocating the slice, but we can reuse it.
+	// The slice belongs to the codec, which may have handed us memory it (or
+	// the message) still owns: it must not end up in the buffer pool.
 	uncompressed := bytes.NewBuffer(data)
-	defer m.bufferPool.Put(uncompressed)
 	if len(data) < m.compressMinBytes || m.compressionPool == nil {
 		// The payload goes out uncompressed, so the headers must not say
 		// otherwise: the header map may still name the encoding of a larger
